@@ -241,6 +241,23 @@ fn check_writer(s: &WScn, src: &[Vec<u8>], base: &(Vec<Res>, Logical), devs: &[(
 // ---------------------------------------------------------------------------------------------
 // reader scenarios
 
+pub const ROUTES: [&str; 5] = ["seekable", "stream", "visitor", "stream-release-after-1-byte", "stream-release-unread"];
+
+/// route 0 seekable, 1 stream (entries read to the end), 2 visitor, 3 / 4 stream with every entry released after 1 / 0 bytes
+/// (the reader then has to skip the rest itself, inside Drop)
+fn run_route(s: &c09::Scn, route: u8, p: PlanRef) -> Result<RObs, String> {
+    match route {
+        3 | 4 => {
+            let pc = p.clone();
+            c09::CALL_PROBE.with(|c| *c.borrow_mut() = Some(Box::new(move || pc.borrow().calls)));
+            let r = c09::run_stream_partial(InstRead { inner: Inst::new(s.bytes.clone(), p) }, if route == 3 { 1 } else { 0 });
+            c09::CALL_PROBE.with(|c| *c.borrow_mut() = None);
+            r
+        }
+        r => run_r(s, r == 1, r == 2, p),
+    }
+}
+
 fn run_r(s: &c09::Scn, stream: bool, visitor: bool, p: PlanRef) -> Result<RObs, String> {
     let inst = Inst::new(s.bytes.clone(), p);
     if visitor {
@@ -296,6 +313,22 @@ pub fn extra_reader_scenarios(seed: u64) -> Vec<c09::Scn> {
         bytes: build(&Spec { entries: vec![ESpec { name: b"first".to_vec(), method: 0, content: a.clone(), ..Default::default() }, ESpec { name: b"second".to_vec(), method: 8, content: b.clone(), ..Default::default() }], comment: vec![b'c'; 3000], ..Default::default() }).0,
         pw: None,
         stream: false,
+        aes: false,
+        damaged: false,
+    });
+    v.push(c09::Scn {
+        label: "nested-stored-zip-in-the-middle".into(),
+        bytes: build(&Spec {
+            entries: vec![
+                ESpec { name: b"first".to_vec(), method: 8, content: a.clone(), ..Default::default() },
+                ESpec { name: b"bundle/nested.zip".to_vec(), method: 0, content: build(&Spec { entries: vec![ESpec { name: b"x".to_vec(), method: 0, content: b"inner x".to_vec(), ..Default::default() }, ESpec { name: b"y".to_vec(), method: 8, content: b"inner y inner y inner y".to_vec(), ..Default::default() }], ..Default::default() }).0, ..Default::default() },
+                ESpec { name: b"after".to_vec(), method: 0, content: b.clone(), ..Default::default() },
+            ],
+            ..Default::default()
+        })
+        .0,
+        pw: None,
+        stream: true,
         aes: false,
         damaged: false,
     });
@@ -373,9 +406,9 @@ fn check_reader(s: &c09::Scn, route: u8, base: &RObs, devs: &[(u64, Dev)], st: &
     for (k, d) in devs {
         p.borrow_mut().devs.insert(*k, *d);
     }
-    let rname = ["seekable", "stream", "visitor"][route as usize];
+    let rname = ROUTES[route as usize];
     let case = || json!({"reader": s.label, "route": rname, "faults": devs.iter().map(|(k, d)| json!({"call": k, "kind": format!("{d:?}")})).collect::<Vec<_>>()});
-    match run_r(s, route == 1, route == 2, p.clone()) {
+    match run_route(s, route, p.clone()) {
         Err(pn) => {
             st.class("PANIC");
             st.viol(format!("reader/panic/{rname}/{}", panic_site(&pn)), format!("{} via {rname}: with {:?} the reader panicked: {pn}", s.label, devs), case(), order);
@@ -389,8 +422,12 @@ fn check_reader(s: &c09::Scn, route: u8, base: &RObs, devs: &[(u64, Dev)], st: &
                 st.class("silent-but-identical");
             } else {
                 st.class("SILENT-WRONG-RESULT");
+                // where did the fault land? Calls made while an entry is being released (the skip of its unread rest inside
+                // Drop, which has no way to report) are a site of their own
+                let spans = c09::RELEASE_SPANS.with(|s| s.borrow().clone());
+                let in_release = route >= 3 && devs.iter().all(|(k, _)| spans.iter().any(|(a, b)| k >= a && k < b));
                 st.viol(
-                    format!("reader/silent-wrong-result/{rname}"),
+                    format!("reader/silent-wrong-result/{rname}{}", if in_release { "/fault-while-an-entry-is-released" } else { "" }),
                     format!("{} via {rname}: {:?} injected, no call reported an error, but the observed entries differ from the failure-free run", s.label, devs),
                     case(),
                     order,
@@ -451,13 +488,9 @@ fn replay(case: &Value, st: &mut Stats, seed: u64) {
     } else if let Some(label) = case["reader"].as_str() {
         let mut scns = c09::scenarios(seed, 700);
         scns.extend(extra_reader_scenarios(seed));
-        let route = match case["route"].as_str() {
-            Some("stream") => 1,
-            Some("visitor") => 2,
-            _ => 0,
-        };
+        let route = ROUTES.iter().position(|r| Some(*r) == case["route"].as_str()).unwrap_or(0) as u8;
         if let Some(s) = scns.iter().find(|s| s.label == label) {
-            if let Ok(b) = run_r(s, route == 1, route == 2, plan()) {
+            if let Ok(b) = run_route(s, route, plan()) {
                 check_reader(s, route, &b, &devs, st, 0);
             }
         }
@@ -549,16 +582,16 @@ pub fn run(args: &Args) -> i32 {
 
     // reader
     let mut ritems: Vec<(usize, u8, Vec<(u64, Dev)>)> = vec![];
-    let mut rbases: Vec<[Option<(u64, RObs)>; 3]> = vec![];
+    let mut rbases: Vec<[Option<(u64, RObs)>; 5]> = vec![];
     for (i, s) in rscn.iter().enumerate() {
-        let mut b: [Option<(u64, RObs)>; 3] = [None, None, None];
-        for route in 0..3u8 {
+        let mut b: [Option<(u64, RObs)>; 5] = [None, None, None, None, None];
+        for route in 0..5u8 {
             if route > 0 && !s.stream {
                 continue;
             }
             let p = plan();
-            match run_r(s, route == 1, route == 2, p.clone()) {
-                Ok(o) if !robs_has_err(&o) && o.entries.len() == 2 => {
+            match run_route(s, route, p.clone()) {
+                Ok(o) if !robs_has_err(&o) && o.entries.len() >= 2 => {
                     let n = p.borrow().calls;
                     for k in 0..n {
                         ritems.push((i, route, vec![(k, Dev::Err)]));
@@ -583,7 +616,7 @@ pub fn run(args: &Args) -> i32 {
     let (rscn_r, rb_r) = (&rscn, &rbases);
     let rdesc = |t: u64| -> Option<Value> {
         let (i, route, devs) = ritems.get(t as usize)?;
-        let rname = ["seekable", "stream", "visitor"][*route as usize];
+        let rname = ROUTES[*route as usize];
         Some(json!({"reader": rscn_r[*i].label, "route": rname, "faults": devs.iter().map(|(k, d)| json!({"call": k, "kind": format!("{d:?}")})).collect::<Vec<_>>()}))
     };
     let s = crate::util::par_for_desc(ritems.len() as u64, 16, &rdesc, |t, st| {
